@@ -367,6 +367,44 @@ pub fn builtins(level: u8, f: &mut dyn FnMut(Case)) {
     }
 }
 
+/// nfacts: facts whose heads contain variables (nested in complex terms and
+/// lists, repeated), called with unbound and partly bound arguments and
+/// followed by further clauses with variables of their own.  The shapes in
+/// which a "fresh" variable of a matched fact stays live in the caller.
+pub fn nfacts(level: u8, f: &mut dyn FnMut(Case)) {
+    let n = if level == 0 { 2 } else { 3 };
+    let base: Program = vec![
+        fact("w", vec![cplx("f", vec![v("$X")])]),
+        fact("wl", vec![list_t(vec![v("$H")], v("$T"))]),
+        fact("same", vec![v("$X"), v("$X")]),
+        fact("pr", vec![cplx("pair", vec![v("$K"), v("$K")])]),
+        fact("k", vec![T::Int(1)]),
+        fact("k", vec![T::Int(2)]),
+        fact("vf", vec![cplx("f", vec![T::Int(1)])]),
+        fact("vf", vec![cplx("f", vec![T::Int(2)])]),
+        rule("kk", vec![v("$M")], G::And(vec![call("k", vec![v("$M"), ]), call("same", vec![v("$M"), v("$N")]), call("k", vec![v("$N")])])),
+    ];
+    let leaves = vec![
+        call("w", vec![v("$A")]),
+        call("wl", vec![v("$A")]),
+        call("pr", vec![v("$A")]),
+        call("same", vec![v("$A"), v("$B")]),
+        call("same", vec![v("$C"), v("$B")]),
+        call("k", vec![v("$B")]),
+        call("kk", vec![v("$B")]),
+        call("vf", vec![v("$A")]),
+        G::Unify(v("$A"), cplx("f", vec![v("$B")])),
+        G::Unify(v("$A"), cplx("pair", vec![v("$B"), v("$C")])),
+    ];
+    let bodies = bodies_upto(&leaves, n);
+    let queries = vec![cplx("p", vec![v("$Z"), v("$W")]), cplx("p", vec![cplx("f", vec![v("$Z")]), v("$W")]), cplx("p", vec![v("$Z"), T::Int(1)])];
+    for bdy in &bodies {
+        let mut p = base.clone();
+        p.push(rule("p", vec![v("$A"), v("$B")], bdy.clone()));
+        f(Case { family: "nfacts", prog: p, queries: queries.clone() });
+    }
+}
+
 fn permutations<X: Clone>(v: &[X]) -> Vec<Vec<X>> {
     if v.len() <= 1 {
         return vec![v.to_vec()];
